@@ -30,6 +30,26 @@ theorem readOrder_sound {c : Bool} {tm tm1 : TM} (hi : Inv tm) (h : readOrder tm
   rw [h1] at h; cases h
   exact ⟨h2, h3, h4, h5, h6⟩
 
+/-- `tm1` is `tm` or what the display order getter makes of `tm` -/
+def Synced (tm tm1 : TM) : Prop := tm1 = tm ∨ readOrder tm = .ok tm1
+
+theorem readOrder_idem {tm tm1 : TM} (hi : Inv tm) (h : readOrder tm = .ok tm1) : readOrder tm1 = .ok tm1 := by
+  obtain ⟨_, ht, _, _, hh⟩ := readOrder_sound (c := false) hi h
+  unfold readOrder
+  have : tm1.hashed = uids tm1 := by rw [hh]; simp [uids, ht]
+  rw [if_pos this]
+
+theorem Synced.read {tm tm1 tm2 : TM} (hi : Inv tm) (hs : Synced tm tm1) (h : readOrder tm1 = .ok tm2) :
+    readOrder tm = .ok tm2 := by
+  rcases hs with rfl | hs
+  · exact h
+  · rw [readOrder_idem hi hs] at h; cases h; exact hs
+
+theorem Synced.trans {tm tm1 tm2 : TM} (hi : Inv tm) (h1 : Synced tm tm1) (h2 : Synced tm1 tm2) : Synced tm tm2 := by
+  rcases h2 with rfl | h2
+  · exact h1
+  · exact Or.inr (h1.read hi h2)
+
 /-! ### move_triggers -/
 
 theorem moveSpec_ne_nil {order ids : List Nat} {k : Nat} (h : ids ≠ []) : moveSpec order ids k ≠ [] := by
@@ -59,7 +79,7 @@ theorem move_spec {c : Bool} {tm : TM} (hi : Inv tm) {ids : List Nat} (hne : ids
 
 /-- the state after a selection: unchanged or synchronised -/
 theorem resolveObj_sound {c : Bool} {tm tm1 : TM} {t : Trig} {f : Found} (hi : Inv tm) (h : resolveObj tm t = .ok (tm1, f)) :
-    Good c tm tm1 ∧ tm1.trigs = tm.trigs ∧ tm1.next = tm.next ∧ IsPerm tm1.order tm.trigs.length ∧
+    Good c tm tm1 ∧ Synced tm tm1 ∧ tm1.trigs = tm.trigs ∧ tm1.next = tm.next ∧ IsPerm tm1.order tm.trigs.length ∧
       f.trig = t ∧ f.idx = t.tid ∧ tm1.order[f.disp]? = some t.tid := by
   unfold resolveObj at h
   cases hr : readOrder tm with
@@ -70,13 +90,13 @@ theorem resolveObj_sound {c : Bool} {tm tm1 : TM} {t : Trig} {f : Found} (hi : I
     by_cases hm : t.tid ∈ tm2.order
     · simp only [hm, if_true] at h
       cases h
-      refine ⟨g, ht, hn, hp, rfl, rfl, ?_⟩
+      refine ⟨g, Or.inr hr, ht, hn, hp, rfl, rfl, ?_⟩
       simp only
       rw [getElem?_eq_getElem (idxOf_lt_length_of_mem hm), getElem_idxOf]
     · simp [hm] at h
 
 theorem resolve_sound {c : Bool} {tm tm1 : TM} {s : Sel} {r : Option Found} (hi : Inv tm) (h : resolve tm s = .ok (tm1, r)) :
-    Good c tm tm1 ∧ tm1.trigs = tm.trigs ∧ tm1.next = tm.next ∧
+    Good c tm tm1 ∧ Synced tm tm1 ∧ tm1.trigs = tm.trigs ∧ tm1.next = tm.next ∧
       ∀ f, r = some f → IsPerm tm1.order tm.trigs.length ∧ tm.trigs[f.idx]? = some f.trig ∧ tm1.order[f.disp]? = some f.idx := by
   cases s with
   | obj p =>
@@ -91,8 +111,8 @@ theorem resolve_sound {c : Bool} {tm tm1 : TM} {s : Sel} {r : Option Found} (hi 
         obtain ⟨tm2, f⟩ := v
         simp only [hr, Except.ok.injEq, Prod.mk.injEq] at h
         obtain ⟨rfl, rfl⟩ := h
-        obtain ⟨g, ht, hn, hpm, h1, h2, h3⟩ := resolveObj_sound (c := c) hi hr
-        refine ⟨g, ht, hn, fun f' hf' => ?_⟩
+        obtain ⟨g, hsy, ht, hn, hpm, h1, h2, h3⟩ := resolveObj_sound (c := c) hi hr
+        refine ⟨g, hsy, ht, hn, fun f' hf' => ?_⟩
         cases hf'
         have := hi.ids p t hp
         refine ⟨hpm, ?_, ?_⟩
@@ -109,7 +129,7 @@ theorem resolve_sound {c : Bool} {tm tm1 : TM} {s : Sel} {r : Option Found} (hi 
         by_cases h0 : i = 0
         · simp only [h0, if_true, Except.ok.injEq, Prod.mk.injEq] at h
           obtain ⟨rfl, rfl⟩ := h
-          exact ⟨Good.refl hi, rfl, rfl, fun f hf => by cases hf⟩
+          exact ⟨Good.refl hi, Or.inl rfl, rfl, rfl, fun f hf => by cases hf⟩
         · simp [h0] at h
       | some t =>
         simp only [hp] at h
@@ -121,7 +141,7 @@ theorem resolve_sound {c : Bool} {tm tm1 : TM} {s : Sel} {r : Option Found} (hi 
           by_cases hm : i.toNat ∈ tm2.order
           · simp only [hm, if_true, Except.ok.injEq, Prod.mk.injEq] at h
             obtain ⟨rfl, rfl⟩ := h
-            refine ⟨g, ht, hn, fun f hf => ?_⟩
+            refine ⟨g, Or.inr hr, ht, hn, fun f hf => ?_⟩
             cases hf
             refine ⟨hpm, hp, ?_⟩
             simp only
@@ -141,7 +161,7 @@ theorem resolve_sound {c : Bool} {tm tm1 : TM} {s : Sel} {r : Option Found} (hi 
         · simp [h0] at h
         · simp only [h0, if_false, Except.ok.injEq, Prod.mk.injEq] at h
           obtain ⟨rfl, rfl⟩ := h
-          exact ⟨g, ht, hn, fun f hf => by cases hf⟩
+          exact ⟨g, Or.inr hr, ht, hn, fun f hf => by cases hf⟩
       | some ti =>
         simp only [ho] at h
         cases hp : tm2.trigs[ti]? with
@@ -153,16 +173,16 @@ theorem resolve_sound {c : Bool} {tm tm1 : TM} {s : Sel} {r : Option Found} (hi 
             · simp [h1, h0] at h
             · simp only [h1, h0, if_false, Except.ok.injEq, Prod.mk.injEq] at h
               obtain ⟨rfl, rfl⟩ := h
-              exact ⟨g, ht, hn, fun f hf => by cases hf⟩
+              exact ⟨g, Or.inr hr, ht, hn, fun f hf => by cases hf⟩
         | some t =>
           simp only [hp, Except.ok.injEq, Prod.mk.injEq] at h
           obtain ⟨rfl, rfl⟩ := h
-          refine ⟨g, ht, hn, fun f hf => ?_⟩
+          refine ⟨g, Or.inr hr, ht, hn, fun f hf => ?_⟩
           cases hf
           exact ⟨hpm, ht ▸ hp, ho⟩
 
 theorem resolve!_sound {c : Bool} {tm tm1 : TM} {s : Sel} {f : Found} (hi : Inv tm) (h : resolve! tm s = .ok (tm1, f)) :
-    Good c tm tm1 ∧ tm1.trigs = tm.trigs ∧ tm1.next = tm.next ∧
+    Good c tm tm1 ∧ Synced tm tm1 ∧ tm1.trigs = tm.trigs ∧ tm1.next = tm.next ∧
       IsPerm tm1.order tm.trigs.length ∧ tm.trigs[f.idx]? = some f.trig ∧ tm1.order[f.disp]? = some f.idx := by
   unfold resolve! at h
   cases hr : resolve tm s with
@@ -174,9 +194,9 @@ theorem resolve!_sound {c : Bool} {tm tm1 : TM} {s : Sel} {f : Found} (hi : Inv 
     | some f' =>
       simp only [hr, Except.ok.injEq, Prod.mk.injEq] at h
       obtain ⟨rfl, rfl⟩ := h
-      obtain ⟨g, ht, hn, hf⟩ := resolve_sound (c := c) hi hr
+      obtain ⟨g, hsy, ht, hn, hf⟩ := resolve_sound (c := c) hi hr
       obtain ⟨a, b, d⟩ := hf _ rfl
-      exact ⟨g, ht, hn, a, b, d⟩
+      exact ⟨g, hsy, ht, hn, a, b, d⟩
 
 /-! ### appending one fresh trigger (`add_trigger`, the first half of `copy_trigger`) -/
 
@@ -235,7 +255,7 @@ theorem copy_good {c : Bool} {tm tm' : TM} {s : Sel} {after : Bool} {cp : Trig} 
   | error e => simp [hr] at h
   | ok v =>
     obtain ⟨tm1, f⟩ := v
-    obtain ⟨g1, ht1, hn1, hp1, hf1, _⟩ := resolve!_sound (c := c) hi hr
+    obtain ⟨g1, _, ht1, hn1, hp1, hf1, _⟩ := resolve!_sound (c := c) hi hr
     simp only [hr] at h
     have g2 : Good c tm1 (appendCopy tm1 f.trig).1 := appendCopy_good g1.inv f.trig
     have hidx : f.idx < tm.trigs.length := (List.getElem?_eq_some_iff.1 hf1).1
@@ -272,7 +292,7 @@ theorem copyPlayers_good {c : Bool} : ∀ {ps : List Nat} {tm tm' : TM} {src : T
     | error e => simp [hr] at h
     | ok v =>
       obtain ⟨tm1, f⟩ := v
-      obtain ⟨g1, _, hn1, _⟩ := resolveObj_sound (c := c) hi hr
+      obtain ⟨g1, _, _, hn1, _⟩ := resolveObj_sound (c := c) hi hr
       simp only [hr] at h
       have g2 : Good c tm1 (appendCopy tm1 f.trig).1 := appendCopy_good g1.inv f.trig
       obtain ⟨g3, hle⟩ := copyPlayers_good (c := c) g2.inv h
@@ -288,7 +308,7 @@ theorem copyPerPlayer_good {c : Bool} {tm tm' : TM} {s : Sel} {fromP : Nat} {pla
   | error e => simp [hr] at h
   | ok v =>
     obtain ⟨tm1, f⟩ := v
-    obtain ⟨g1, _, hn1, _⟩ := resolve!_sound (c := c) hi hr
+    obtain ⟨g1, _, _, hn1, _⟩ := resolve!_sound (c := c) hi hr
     simp only [hr] at h
     obtain ⟨g2, hle⟩ := copyPlayers_good (c := c) g1.inv h
     exact ⟨g1.trans hi g2, by omega⟩
